@@ -4,6 +4,7 @@ package main
 // coll (C13), step (C18), tail (C08), cancel (C07).  All observations come from runProgram.
 
 import (
+	"math"
 	"strconv"
 	"strings"
 
@@ -59,7 +60,27 @@ func (g *tryGen) body(depth int) MalType {
 	case 4:
 		return call1("f-throw", g.thrown()) // via a called function
 	case 5:
-		switch r.intn(6) { // via a builtin that calls back into lisp
+		switch r.intn(10) { // via a builtin that calls back into lisp
+		case 6, 7:
+			// update-in at every depth of its path (1, 2, 3 elements; maps and vectors on the way): the recursion hands
+			// the callee's failure up unchanged at every level
+			thrower := ls(sy("fn"), vc(sy("x")), call1("throw", g.thrown()))
+			switch r.intn(5) {
+			case 0:
+				return call1("update-in", HashMap{Val: map[string]MalType{kw("a"): 1}}, vc(kw("a")), thrower)
+			case 1:
+				return call1("update-in", HashMap{Val: map[string]MalType{kw("a"): HashMap{Val: map[string]MalType{kw("b"): 1}}}}, vc(kw("a"), kw("b")), thrower)
+			case 2:
+				return call1("update-in", HashMap{Val: map[string]MalType{kw("a"): HashMap{Val: map[string]MalType{kw("b"): HashMap{Val: map[string]MalType{kw("c"): 1}}}}}}, vc(kw("a"), kw("b"), kw("c")), thrower)
+			case 3:
+				return call1("update-in", vc(vc(1, 2), vc(3)), vc(0, 1), thrower)
+			default:
+				return call1("update-in", vc(vc(vc(7, 8))), vc(0, 0, 1), sy("f-throw")) // (homogeneous path: a vector holding a map is a host panic in this update-in, whose text is not modelled)
+			}
+		case 8:
+			return call1("reduce", ls(sy("fn"), vc(sy("acc"), sy("x")), call1("throw", g.thrown())), 0, vc(1, 2))
+		case 9:
+			return call1("map", ls(sy("fn"), vc(sy("x")), call1("update-in", HashMap{Val: map[string]MalType{kw("a"): HashMap{Val: map[string]MalType{kw("b"): sy("x")}}}}, vc(kw("a"), kw("b")), sy("f-throw"))), vc(g.thrown()))
 		case 0:
 			return call1("apply", sy("f-throw"), vc(g.thrown()))
 		case 1:
@@ -792,7 +813,7 @@ func collCall(r *rng, depth int) MalType {
 			items = append(items, collCall(r, depth-1)) // composition
 		} else {
 			a := collArg(r, 1)
-			if v, isInt := a.(int); isInt && (v > 1000 || v < -1000) && (b.name == "range" || b.name == "take" || b.name == "drop") {
+			if v, isInt := a.(int); isInt && (v > 1000 || v < -1000) && b.name == "range" {
 				a = v % 50 // (range -2 9223372036854775807) is a question of memory and patience, not of meaning
 			}
 			items = append(items, call1("quote", a))
@@ -1166,6 +1187,24 @@ func init() {
 	}})
 
 	register("coll", &evalEngine{gen: func(r *rng, n int, tier string, emit func(string)) {
+		// the counting builtins with EVERY extreme count (the ends of the 64-bit range and their neighbours, where a
+		// difference or a sum computed before clamping wraps around) on sequences of 0 … 3 elements
+		extremes := []int{math.MinInt64, math.MinInt64 + 1, math.MinInt64 + 2, math.MinInt64 + 3, -math.MaxInt64 + 5, -1 << 32, -4, -1, 0, 1, 3, 4, 1 << 32, math.MaxInt64 - 3, math.MaxInt64 - 1, math.MaxInt64}
+		for _, b := range []string{"take", "take-last", "drop", "drop-last", "nth", "subvec"} {
+			for _, c := range extremes {
+				for _, xs := range []MalType{vc(), vc(1), vc(1, 2, 3), ls(1, 2), nil} {
+					switch b {
+					case "nth":
+						emit(evalPayload(-1, "-", nil, call1(b, call1("quote", xs), c)))
+					case "subvec":
+						emit(evalPayload(-1, "-", nil, call1(b, call1("quote", xs), 0, c)))
+						emit(evalPayload(-1, "-", nil, call1(b, call1("quote", xs), c)))
+					default:
+						emit(evalPayload(-1, "-", nil, call1(b, c, call1("quote", xs))))
+					}
+				}
+			}
+		}
 		for i := 0; i < n; i++ {
 			if r.chance(1, 8) {
 				emit(evalPayload(-1, "-", nil, collCallback(r)))
